@@ -191,22 +191,21 @@ the unit and `Processor.Run` handling its termination. -/
 def procStep {H : Type} [DecidableEq H] (cfg : Cfg) (pc : PCfg) (f : HashFns H) (rs : RS)
     (sg : SigScheme H) (s : Sched) (p : Proc H) (u : PUnit H) (sender : Bytes) :
     Proc H × ProcOut H :=
-  let key := keyOf u
-  if p.finalized.contains key then (p, .ignored)
+  if p.finalized.contains (keyOf u) then (p, .ignored)
   else
-    match s.shardIndexFor key.publisher with
+    match s.shardIndexFor (keyOf u).publisher with
     | .error _ =>
       -- only consulted when there is no subprocessor yet; one exists only if this succeeded
       (p, .noRoute)
     | .ok li =>
-      let st := (p.findSub key).getD (SubState.fresh s.total)
-      match subStep cfg pc f rs sg s key.publisher li st u sender with
-      | .running st' bc b => (p.setSub key st', .handled bc b none)
+      match subStep cfg pc f rs sg s (keyOf u).publisher li
+          ((p.findSub (keyOf u)).getD (SubState.fresh s.total)) u sender with
+      | .running st' bc b => (p.setSub (keyOf u) st', .handled bc b none)
       | .finished err bc b =>
-        ({ (p.dropSub key) with finalized := key :: p.finalized }, .handled bc b (some err))
+        (⟨keyOf u :: p.finalized, (p.dropSub (keyOf u)).subs⟩, .handled bc b (some err))
       | .firstInvalid =>
-        if pc.noPoison then (p.dropSub key, .handled [] none (some true))
-        else ({ (p.dropSub key) with finalized := key :: p.finalized }, .handled [] none (some true))
+        if pc.noPoison then (p.dropSub (keyOf u), .handled [] none (some true))
+        else (⟨keyOf u :: p.finalized, (p.dropSub (keyOf u)).subs⟩, .handled [] none (some true))
       | .panic => (p, .panic)
 
 end Juno.C19
